@@ -244,6 +244,49 @@ def pchip_gradient_finite(n_knots):
     return fn
 
 
+def forward_saves_input_state(n):
+    """forward() must hand backward() the state the step STARTED from.  krylov_exp documents that its input
+    tensor "becomes invalid" (it is normalised in place), so forward may not save that very tensor after the
+    call.  Symbolically krylov_exp is a stub honouring exactly that contract (returns an arbitrary vector and
+    overwrites its argument with arbitrary values); on the real torch the real krylov_exp runs."""
+
+    def fn(env):
+        from types import SimpleNamespace
+
+        T = env.torch
+        te = env.mod("emu_sv.time_evolution")
+        omega, delta, phi, U = _params(env, n, False)
+        psi = env.tensor_cplx("psi", (2**n,))
+        env.assume(scalar(T.linalg.vector_norm(psi)) > 0.01, "the input state is not (numerically) zero")
+        psi0 = psi.clone()
+        saved = {}
+        ctx = SimpleNamespace(needs_input_grad=(False, True, True, True, True, True, False, False))
+        ctx.save_for_backward = lambda *ts: saved.__setitem__("t", ts)
+        old = te.krylov_exp
+        if env.mode != "real":
+
+            def fake_krylov_exp(op, v, *a, **k):
+                out = env.tensor_cplx("evolved", tuple(v.shape))
+                v[:] = env.tensor_cplx("leftover", tuple(v.shape))  # "the input tensor object v becomes invalid"
+                return out
+
+            te.krylov_exp = fake_krylov_exp
+        try:
+            te.EvolveStateVector.forward(ctx, 5.0, omega, delta, phi, U, psi, 1e-10, [])
+        finally:
+            te.krylov_exp = old
+        ts = saved.get("t", ())
+        env.check(len(ts) == 5, "forward saves (omegas, deltas, phis, interaction matrix, state) for backward")
+        if len(ts) == 5:
+            want = psi0 if not env.mutant("expects_scaled_state") else 2.0 * psi0
+            env.check_eq(ts[4], want, f"the state saved for the backward pass is the state the step started from (n={n}, any norm)")
+            env.check_eq(ts[0], omega, "saved amplitudes are the inputs")
+            env.check_eq(ts[1], delta, "saved detunings are the inputs")
+            env.check_eq(ts[2], phi, "saved phases are the inputs")
+
+    return fn
+
+
 COVERS_BACKWARD = [
     ("emu_sv/time_evolution.py", "EvolveStateVector.backward"),
     ("emu_sv/time_evolution.py", "EvolveStateVector.get_hamiltonian"),
@@ -364,7 +407,9 @@ META = {
         "interpolant is built from +,-,*,/,sign,abs,comparisons and torch.where, whose reverse-mode gradient is non-finite "
         "exactly when a division has a zero divisor (also in a branch torch.where discards: 0/0); every divisor met while the "
         "real code runs on symbolic samples is recorded and z3 decides divisor != 0 for all sample values (flat segments "
-        "included); on the real torch the gradient itself is computed with autograd."
+        "included); on the real torch the gradient itself is computed with autograd. forward() hands backward() the state the "
+        "step started from, for input states of any norm: krylov_exp is a stub honouring its documented contract (arbitrary "
+        "result, argument overwritten - the real one normalises it in place), the real krylov_exp runs on the real torch."
     ),
     "outside": [
         "N > 3 (N > 4 thorough); batch sizes other than 2",
@@ -443,6 +488,17 @@ def cases(tier):
                 weight=3**nk,
                 timeout_ms=60000,
                 deadline_s=1500,
+            )
+        )
+    for n in ([1, 2] if quick else [1, 2, 3]):
+        out.append(
+            Case(
+                f"forward_saves_input_state_n{n}",
+                forward_saves_input_state(n),
+                covers=[("emu_sv/time_evolution.py", "EvolveStateVector.forward"), ("emu_sv/time_evolution.py", "EvolveStateVector.evolve")],
+                bounds={"n_qubits": n, "input state": "symbolic complex vector of any (non-zero) norm", "krylov_exp": "stub honouring its documented contract: arbitrary result, argument overwritten"},
+                canaries=["expects_scaled_state"],
+                weight=4**n,
             )
         )
     for n, all_sets in ([(1, True), (2, False)] if quick else [(1, True), (2, True), (3, False)]):
